@@ -178,7 +178,7 @@ def alphabet(grammar, foreign=True):
         if t not in toks:
             toks.append(t)
     for name, params, body in grammar:
-        if name == "Comment":
+        if name in ("Comment", "CL", "CB"):  # the comment rule and the rules it refers to
             continue
         for x in refpeg.walk(body):
             parts = [x]
